@@ -1,24 +1,24 @@
 """C15 — classic serialization round-trips and is canonical."""
-import vlib, gen
+import vlib, gen, gen_classic_nc
 
-LEVEL = "other"   # part of the statement is proved, the rest is decided on the implementation (see Props file)
+LEVEL = "proof"   # every conjunct of the statement has a theorem in Props/C15.v
 FAMILY = "classic"
 
 
 MANIFEST = {
- "level": 'other',
- "text": 'Partly proved, partly explored. Proved for every tree (any size, depth, sharing; atoms up to 2^34-1 bytes) about the Gallina model of write_atom/ser/de/parse_atom/tools/serialized_length: node_to_bytes = the recursive ser, node_from_stream(ser t ++ rest) = (t, rest), is_canonical_serialization(ser t) = true, trusted serialized length = byte count, object-cache length = byte count (u32/saturating arithmetic, below 2^32-5). Not proved: the converse direction (decodes + judged canonical => re-serializes to the consumed bytes) and the untrusted length function; those are decided by a search on the implementation (random/structured byte strings and trees). The model is run against the implementation on trees with atoms at every prefix boundary, and its literals are pinned to constants the translator re-reads from the source.',
- "note": vlib.NOTE_COMMON + " Level 'other' because the full conjunction is not proved (Props/C15.v names the missing conjuncts).",
- "technique": 'Coq proof (induction over trees, explicit-stack/fuel refinement) + translator pins + model/implementation differential run + implementation search',
+ "level": 'proof',
+ "text": 'Every conjunct is proved about the Gallina model of write_atom/ser/de/parse_atom/tools/serialized_length/object_cache, for every tree (any size, depth, sharing; atoms up to 2^34-1 bytes) and every byte string (Props/C15.v): node_to_bytes = the recursive ser whenever it fits the limit; node_from_stream(ser t ++ rest) = (t, rest); is_canonical_serialization(ser t) = true; the trusted length, the untrusted back-reference-aware length probe serialized_length_from_bytes (model in Model/BackRef.v) and the object-cache length (u32/saturating arithmetic, below 2^32-5) all equal the byte count, the two stream functions whatever follows the serialization; conversely, if node_from_stream decodes any byte string and is_canonical_serialization accepts the consumed prefix, then ser of the decoded tree is exactly that prefix (atom level: the canonical minimum per prefix length forces the encoder\'s prefix class; tree level: induction over the decoder run). The model is run against the implementation on trees with atoms at every prefix boundary and on byte strings (decode, canonical, both lengths), its literals are pinned to constants the translator re-reads from the source, and the implementation is searched against every relation of the statement.',
+ "note": vlib.NOTE_COMMON + " Byte strings are lists of N with an explicit all-elements-below-256 hypothesis (wf_sexp / wf_bytes). The object-cache length theorem holds below 2^32-5 bytes (beyond the default 2,000,000-byte limit of the statement; above it serialized_length_atom's u32 arithmetic reports Overflow).",
+ "technique": 'Coq proof (induction over trees and over decoder runs, explicit-stack/fuel refinement, finite byte-class sweep by vm_compute) + translator pins + model/implementation differential run + implementation search',
 }
 
 def run(ctx):
     r = ctx.rng
     ctx.rule = ("random/list/complete/shared trees with atoms at every length-prefix boundary (0,1,0x3f/0x40,0x1fff/0x2000, "
                 "0xfffff/0x100000 as repeated-byte atoms), non-canonical integers, deep lists; per tree the model and the "
-                "implementation are compared on ser / object-cache length / decode / canonical / trusted length of the "
-                "serialization; non-trivial = distinct tree with at least one pair or an atom of length >= 2")
-    ctx.explanation = ("Part proof, part exploration. Theorems (Props/C15.v, all closed under the global context, counted in obligations/discharged): node_to_bytes = ser, node_from_stream(ser t ++ rest) = (t, rest), is_canonical_serialization(ser t), trusted length, object-cache length, for every tree. Not proved: the converse (decodes and judged canonical => re-serializes to the consumed bytes) and the untrusted length function; both are searched on the implementation ('agree' and 'tree' families counted in evaluations). Pins/C15.v ties the model's literals to constants the translator re-reads from the source on every run; the correspondence families compare model and implementation observation by observation.")
+                "implementation are compared on ser / object-cache length / decode / canonical / trusted and untrusted length of the "
+                "serialization; for the converse, mutated encodings plus directed atoms with every prefix length 1..6 and sizes around every prefix-class minimum (bare, in a pair, with a trailing byte); non-trivial = distinct tree with at least one pair or an atom of length >= 2")
+    ctx.explanation = ("Proof + correspondence + search. Theorems (Props/C15.v, all closed under the global context, counted in obligations/discharged): node_to_bytes = ser, node_from_stream(ser t ++ rest) = (t, rest), is_canonical_serialization(ser t), trusted length, untrusted length (serialized_length_from_bytes), object-cache length, for every tree; the converse (decodes and judged canonical => ser of the decoded tree = the consumed bytes) for every byte string. Pins/C15.v freezes the statements and ties the model's literals to constants the translator re-reads from the source on every run; the correspondence families compare model and implementation observation by observation (ser, cache length, decode, canonical, trusted and untrusted length); the 'tree' and 'agree' families search the implementation against the statement's relations directly.")
     ctx.proofs()
     if not ctx.build():
         return
@@ -27,6 +27,7 @@ def run(ctx):
     trees += [gen.deep_list(r, d, right=(d % 2 == 0)) for d in (100, 500, 2000, 5000)]
     trees += [gen.Rep(b, ln) for ln in (0x3f, 0x40, 0x1fff, 0x2000, 0xfffff, 0x100000) for b in (0x00, 0x80)]
     cases = []
+    probes = []
     for t in trees:
         s = gen.tt(t)
         cases.append("ser " + s)
@@ -37,10 +38,13 @@ def run(ctx):
             b = gen.py_ser(t)
             h = gen.hx(b + bytes(r.getrandbits(8) for _ in range(r.choice([0, 0, 3]))))
             cases += ["de " + h, "canon " + gen.hx(b), "tlen " + h]
+            if total < 20000:
+                probes.append("probe " + h)      # serialized_length_from_bytes (model: Model/BackRef.v)
 
     def nontrivial(c, a, b):
         return "p" in c.split()[1][:2] or len(c) > 12
     ctx.correspond("classic", cases, nontrivial=nontrivial)
+    ctx.correspond("br", probes, name="untrusted-length", nontrivial=lambda c, a, b: len(c) > 12)
 
     # property-level search on the implementation: every relation the statement names, per tree
     big = []
@@ -63,7 +67,13 @@ def run(ctx):
             ctx.violation("round trip / canonical / length relation fails for a tree: %s" % bad, {"case": l[:2000], "impl": o})
     # converse: decodes and judged canonical => re-serializes to the consumed bytes (inside "agree")
     bs = [gen.gen_bytes_classic(r) for _ in range(ctx.scale(3000, 100000))]
+    # directed: over-long prefixes with sizes at the edges of every prefix-length class
+    bs += [b for _, b in gen_classic_nc.boundary_strings(0x100001 if (ctx.thorough or ctx.broken) else 0x2001)]
     lines = ["agree " + gen.hx(b) for b in bs]
+    # the same directed strings through model and implementation (decode, canonical, both lengths)
+    small = [gen.hx(b) for _, b in gen_classic_nc.boundary_strings(0x2001)]
+    ctx.correspond("classic", [c + h for h in small for c in ("de ", "canon ", "tlen ")], name="classic-boundaries", nontrivial=lambda c, a, b: len(c) > 12)
+    ctx.correspond("br", ["probe " + h for h in small], name="untrusted-length-boundaries", nontrivial=lambda c, a, b: len(c) > 12)
     outs = vlib.run_impl("classic", lines)
     for l, o in zip(lines, outs):
         ctx.evaluations += 1
